@@ -5,9 +5,10 @@ import "gtsverif/core"
 // C14 runs every cache-transparency rule.
 func C14(p *core.Prog, r *core.Report) {
 	Keys(p, r)
+	Key6(p, r)
 	TryCacheRules(p, r)
 	Tee(p, r)
 	Commit(p, r)
 	r.NotDecided = append(r.NotDecided, "byte equality of the two runs (needs execution)", "behaviour under cache-directory I/O faults", "the -o replay path's removal of the entry", "options whose effect is lossy inside the payload expression")
-	r.Assumptions = append(r.Assumptions, "encoding/json marshals distinct option values to distinct payload bytes", "hash.Hash implementations never fail in Write", "go/cfg models control flow of the analysed functions (no goto/labels in them)")
+	r.Assumptions = append(r.Assumptions, "encoding/json marshals distinct values of the types accepted by KEY-6 to distinct payload bytes", "hash.Hash implementations never fail in Write", "go/cfg models control flow of the analysed functions (no goto/labels in them)")
 }
